@@ -1,15 +1,15 @@
 /-
-The programs of `Gen/TranslatedCtor.lean` (generated from the current source of the constructors and of the
-circuit registry by tools/py2lean_ctor.py), run with the primitives instantiated on the heap of
-`EdzedModel/Ctor.lean`, ARE the model's functions.
+The programs of `Gen/TranslatedBlkCtor.lean` (generated from the current source of the constructors and of the
+circuit registry by tools/py2lean_blkctor.py), run with the primitives instantiated on the heap of
+`EdzedModel/BlkCtor.lean`, ARE the model's functions.
 -/
-import EdzedModel.Ctor
-import EdzedModel.Gen.TranslatedCtor
+import EdzedModel.BlkCtor
+import EdzedModel.Gen.TranslatedBlkCtor
 
 set_option linter.unusedSimpArgs false
 
-namespace Edzed.CtorTie
-open Edzed.CtorPy Edzed.Ctor
+namespace Edzed.BlkCtorTie
+open Edzed.BlkCtorPy Edzed.BlkCtor
 open Edzed.Gen
 
 /-- the leaves on the model's heap -/
@@ -115,8 +115,8 @@ end steps
     ((w.alloc { cls := cls, bases := [cls, "Const"] }).1, .ok (w.alloc { cls := cls, bases := [cls, "Const"] }).2) := rfl
 
 theorem checkName_tie (a : Arg Nat) (nt : String) (w : World) :
-    TrC.checkName prims a nt w = (w, (checkName a).map fun _ => ()) := by
-  unfold TrC.checkName checkName
+    TrBC.checkName prims a nt w = (w, (checkName a).map fun _ => ()) := by
+  unfold TrBC.checkName checkName
   cases a.str? with
   | none => rfl
   | some s =>
@@ -133,34 +133,34 @@ theorem setAt_last (h : List Obj) (o : Obj) (k : String) (v : Attr) :
   | cons a r ih => simp [setAt, ih]
 
 theorem circuitCall_tie (w : World) :
-    TrC.circuitCall prims w = ((newCircuit w).1, .ok (newCircuit w).2) := by
-  simp only [TrC.circuitCall, TrC.circuitInit, bind_apply, modify_apply, pure_apply, p_allocCircuit, p_setAttr,
+    TrBC.circuitCall prims w = ((newCircuit w).1, .ok (newCircuit w).2) := by
+  simp only [TrBC.circuitCall, TrBC.circuitInit, bind_apply, modify_apply, pure_apply, p_allocCircuit, p_setAttr,
     p_newResolver, p_boundRegister, World.alloc, World.setAttr, setAt_last, newCircuit, freshCircuitAttrs]
   rfl
 
 theorem getCircuit_tie (w : World) :
-    TrC.getCircuit prims w = ((getCircuit w).1, .ok (some (getCircuit w).2)) := by
-  unfold TrC.getCircuit TrC.getCircuit_j1 getCircuit
+    TrBC.getCircuit prims w = ((getCircuit w).1, .ok (some (getCircuit w).2)) := by
+  unfold TrBC.getCircuit TrBC.getCircuit_j1 getCircuit
   cases hc : w.current with
   | some c => simp [hc]
   | none => simp [hc, circuitCall_tie]
 
 theorem resetCircuit_tie (w : World) :
-    TrC.resetCircuit prims w = (resetCircuit w, .ok ()) := by
-  unfold TrC.resetCircuit resetCircuit
+    TrBC.resetCircuit prims w = (resetCircuit w, .ok ()) := by
+  unfold TrBC.resetCircuit resetCircuit
   cases hc : w.current with
   | none => simp [hc]
   | some c =>
     have hcur : ∀ k, (abort w c k).1.current = some c := by
       intro k; unfold abort; split <;> simp [World.setAttr, hc]
-    have hex : TrC.catches "Exception" "RuntimeError" = true := by decide
+    have hex : TrBC.catches "Exception" "RuntimeError" = true := by decide
     cases hr : w.abortRaises <;>
       simp [hc, abort, hr, hex, circuitCall_tie]
 
 theorem isCurrentTask_tie (c : Nat) (w : World) :
-    TrC.isCurrentTask prims c w = (w, .ok (isCurrentTask w c)) := by
-  unfold TrC.isCurrentTask isCurrentTask
-  have hex : TrC.catches "Exception" "RuntimeError" = true := by decide
+    TrBC.isCurrentTask prims c w = (w, .ok (isCurrentTask w c)) := by
+  unfold TrBC.isCurrentTask isCurrentTask
+  have hex : TrBC.catches "Exception" "RuntimeError" = true := by decide
   cases ht : simtask w c with
   | none => simp [ht]
   | some t =>
@@ -173,10 +173,10 @@ theorem isCurrentTask_tie (c : Nat) (w : World) :
         simp [ht, hq, h, h2]
 
 theorem hasMethod_tie (o : Nat) (n : String) (w : World) :
-    TrC.hasMethod prims o n w = (w, hasMethod w o n) := by
-  unfold TrC.hasMethod hasMethod
-  have hex : TrC.catches "AttributeError" "AttributeError" = true := by decide
-  have hex2 : TrC.catches "AttributeError" "RuntimeError" = false := by decide
+    TrBC.hasMethod prims o n w = (w, hasMethod w o n) := by
+  unfold TrBC.hasMethod hasMethod
+  have hex : TrBC.catches "AttributeError" "AttributeError" = true := by decide
+  have hex2 : TrBC.catches "AttributeError" "RuntimeError" = false := by decide
   cases hl : lookup w o n with
   | none => simp [hl, hex]
   | some m => cases m <;> simp [hl, hex, hex2]
@@ -217,9 +217,9 @@ theorem storeX_tie (self : Nat) (kw : Kw (Arg Nat)) (w : World) :
   storeX_tie' self kw w
 
 theorem blockTail_tie (self : Nat) (name comment onOutput debug : Arg Nat) (xkw : Kw (Arg Nat)) (w : World) :
-    TrC.blockInit_j1 prims self name xkw comment debug onOutput w
+    TrBC.blockInit_j1 prims self name xkw comment debug onOutput w
       = blockTail w self name comment onOutput debug xkw := by
-  unfold TrC.blockInit_j1 blockTail
+  unfold TrBC.blockInit_j1 blockTail
   simp only [bind_apply, modify_apply, gets_apply, p_setAttr, p_isInstance, raise_apply, pure_apply, p_eventTuple,
     p_addSelf]
   generalize w.setAttr self "name" (AV.arg name) = w1
@@ -244,9 +244,9 @@ theorem blockTail_tie (self : Nat) (name comment onOutput debug : Arg Nat) (xkw 
           | mk w3 r3 => cases r3 <;> rfl
 
 theorem blockInit_tie (self : Nat) (name comment onOutput reserved debug : Arg Nat) (xkw : Kw (Arg Nat)) (w : World) :
-    TrC.blockInit prims self name comment onOutput reserved debug xkw w
+    TrBC.blockInit prims self name comment onOutput reserved debug xkw w
       = blockInit w self name comment onOutput reserved debug xkw := by
-  unfold TrC.blockInit blockInit
+  unfold TrBC.blockInit blockInit
   simp only [bind_apply, getCircuit_tie, modify_apply, p_setAttr]
   generalize ((getCircuit w).1.setAttr self "circuit" (AV.optobj (some (getCircuit w).2))) = w1
   by_cases hn : name.isNone = true
@@ -266,8 +266,8 @@ theorem blockInit_tie (self : Nat) (name comment onOutput reserved debug : Arg N
         cases strStartsWith s "_" <;> cases reserved.truthy <;> simp [blockTail_tie]
 
 theorem blockInitCall_tie (self : Nat) (args : List (Arg Nat)) (kw : Kw (Arg Nat)) (w : World) :
-    TrC.blockInitCall prims self args kw w = blockInitCall w self args kw := by
-  unfold TrC.blockInitCall blockInitCall
+    TrBC.blockInitCall prims self args kw w = blockInitCall w self args kw := by
+  unfold TrBC.blockInitCall blockInitCall
   cases bindArgs ["name"] ["comment", "on_output", "_reserved", "debug"] false true args kw with
   | none => rfl
   | some r =>
@@ -278,8 +278,8 @@ theorem blockInitCall_tie (self : Nat) (args : List (Arg Nat)) (kw : Kw (Arg Nat
         first | rfl | (simp only [blockInit_tie])
 
 theorem sblockInit_tie (self : Nat) (args : List (Arg Nat)) (onEvery : Arg Nat) (kw : Kw (Arg Nat)) (w : World) :
-    TrC.sblockInit prims self args onEvery kw w = sblockInit w self args onEvery kw := by
-  unfold TrC.sblockInit TrC.sblockInit_j1 sblockInit
+    TrBC.sblockInit prims self args onEvery kw w = sblockInit w self args onEvery kw := by
+  unfold TrBC.sblockInit TrBC.sblockInit_j1 sblockInit
   simp only [bind_apply, hasMethod_tie, pure_apply, modify_apply, p_setAttr, p_eventTuple, blockInitCall_tie]
   cases hasMethod w self "init_from_value" with
   | error e => rfl
@@ -298,8 +298,8 @@ theorem sblockInit_tie (self : Nat) (args : List (Arg Nat)) (onEvery : Arg Nat) 
         cases r3 <;> rfl
 
 theorem sblockInitCall_tie (self : Nat) (args : List (Arg Nat)) (kw : Kw (Arg Nat)) (w : World) :
-    TrC.sblockInitCall prims self args kw w = sblockInitCall w self args kw := by
-  unfold TrC.sblockInitCall sblockInitCall
+    TrBC.sblockInitCall prims self args kw w = sblockInitCall w self args kw := by
+  unfold TrBC.sblockInitCall sblockInitCall
   cases bindArgs [] ["on_every_output"] true true args kw with
   | none => rfl
   | some r =>
@@ -308,16 +308,16 @@ theorem sblockInitCall_tie (self : Nat) (args : List (Arg Nat)) (kw : Kw (Arg Na
     simp only [sblockInit_tie]
 
 theorem cblockInit_tie (self : Nat) (args : List (Arg Nat)) (kw : Kw (Arg Nat)) (w : World) :
-    TrC.cblockInit prims self args kw w = cblockInit w self args kw := by
-  unfold TrC.cblockInit cblockInit
+    TrBC.cblockInit prims self args kw w = cblockInit w self args kw := by
+  unfold TrBC.cblockInit cblockInit
   simp only [bind_apply, modify_apply, p_setAttr, p_newInputGetter, blockInitCall_tie, pure_apply]
   generalize blockInitCall _ self args kw = r
   obtain ⟨w3, r3⟩ := r
   cases r3 <;> rfl
 
 theorem cblockInitCall_tie (self : Nat) (args : List (Arg Nat)) (kw : Kw (Arg Nat)) (w : World) :
-    TrC.cblockInitCall prims self args kw w = cblockInitCall w self args kw := by
-  unfold TrC.cblockInitCall cblockInitCall
+    TrBC.cblockInitCall prims self args kw w = cblockInitCall w self args kw := by
+  unfold TrBC.cblockInitCall cblockInitCall
   cases bindArgs [] [] true true args kw with
   | none => rfl
   | some r =>
@@ -328,7 +328,7 @@ theorem cblockInitCall_tie (self : Nat) (args : List (Arg Nat)) (kw : Kw (Arg Na
 /-! ### external events -/
 
 theorem extTail_tie (self : Nat) (d etype source : Arg Nat) (w : World) :
-    TrC.extInit_j1 prims self d etype source w =
+    TrBC.extInit_j1 prims self d etype source w =
       if !isSBlock w d then (w, .error "TypeError")
       else
         match etype.str? with
@@ -341,7 +341,7 @@ theorem extTail_tie (self : Nat) (d etype source : Arg Nat) (w : World) :
             | some s =>
               (((w.setAttr self "_dest" (.arg d)).setAttr self "_etype" (.arg etype)).setAttr self "_source"
                 (.str (extSource s)), .ok ()) := by
-  unfold TrC.extInit_j1
+  unfold TrBC.extInit_j1
   have hsb : argIsInstance prims w d "SBlock" = isSBlock w d := by cases d <;> rfl
   simp only [M.notM, bind_apply, gets_apply, pure_apply, hsb]
   cases isSBlock w d
@@ -369,8 +369,8 @@ theorem extTail_tie (self : Nat) (d etype source : Arg Nat) (w : World) :
     · rfl
 
 theorem extInit_tie (self : Nat) (dest etype source : Arg Nat) (w : World) :
-    TrC.extInit prims self dest etype source w = extInit w self dest etype source := by
-  unfold TrC.extInit extInit extDest
+    TrBC.extInit prims self dest etype source w = extInit w self dest etype source := by
+  unfold TrBC.extInit extInit extDest
   cases hd : dest.str? with
   | some n =>
     simp only [bind_apply, getCircuit_tie, deref_some, p_findblock, extTail_tie]
@@ -388,8 +388,8 @@ theorem extInit_tie (self : Nat) (dest etype source : Arg Nat) (w : World) :
       · simp only [hb, Bool.false_eq_true, ↓reduceIte, raise_apply]
 
 theorem extInitCall_tie (self : Nat) (args : List (Arg Nat)) (kw : Kw (Arg Nat)) (w : World) :
-    TrC.extInitCall prims self args kw w = extInitCall w self args kw := by
-  unfold TrC.extInitCall extInitCall
+    TrBC.extInitCall prims self args kw w = extInitCall w self args kw := by
+  unfold TrBC.extInitCall extInitCall
   cases bindArgs ["dest", "etype", "source"] [] false false args kw with
   | none => rfl
   | some r =>
@@ -402,17 +402,17 @@ theorem extInitCall_tie (self : Nat) (args : List (Arg Nat)) (kw : Kw (Arg Nat))
 /-! ### Const -/
 
 theorem constInit_tie (o : Nat) (v : Arg Nat) (w : World) :
-    TrC.constInit prims o v w =
+    TrBC.constInit prims o v w =
       if v.isUndef then (w, .error "ValueError") else (w.setAttr o "_output" (.arg v), .ok ()) := by
-  unfold TrC.constInit
+  unfold TrBC.constInit
   cases v.isUndef <;> rfl
 
 theorem constCall_tie (cls : String) (v : Arg Nat) (w : World) :
-    TrC.constCall prims cls v w = constCall w cls v := by
-  unfold TrC.constCall TrC.constNew TrC.constNew_j1 constCall
-  have hk : TrC.catches "KeyError" "KeyError" = true := by decide
-  have ht : TrC.catches "KeyError" "TypeError" = false := by decide
-  have ht2 : TrC.catches "TypeError" "TypeError" = true := by decide
+    TrBC.constCall prims cls v w = constCall w cls v := by
+  unfold TrBC.constCall TrBC.constNew TrBC.constNew_j1 constCall
+  have hk : TrBC.catches "KeyError" "KeyError" = true := by decide
+  have ht : TrBC.catches "KeyError" "TypeError" = false := by decide
+  have ht2 : TrBC.catches "TypeError" "TypeError" = true := by decide
   simp only [bind_apply, tryCatch_apply, p_instancesGet, pure_apply, constInit_tie]
   cases hh : hashable v
   · simp [ht, ht2, World.alloc]
@@ -425,4 +425,4 @@ theorem constCall_tie (cls : String) (v : Arg Nat) (w : World) :
       simp [hf, hk, World.alloc]
       cases v.isUndef <;> rfl
 
-end Edzed.CtorTie
+end Edzed.BlkCtorTie
